@@ -389,6 +389,8 @@ def gen_cut(seed, opts=None):
         plan['faults'].append({'kind': 'cut', 'dir': _pick(rng, [(1, 'c2s'), (1, 's2c')]),
                                'offset': _pick(rng, [(1, rng.randint(0, 60)), (3, rng.randint(0, 1500))]),
                                'mode': _pick(rng, [(1, 'eof'), (1, 'reset')])})
+        if plan.get('framing') == 'ws':
+            plan['faults'][-1]['offset'] = rng.randint(0, 25)  # message framing: the link is lost in place of the n-th message
     elif kind == 'close':
         plan['faults'].append({'kind': 'close', 'who': _pick(rng, [(1, 'client'), (1, 'server')]),
                                'at': round(0.01 + rng.uniform(0, 0.03), 5), 'hops': rng.randint(0, 5)})
